@@ -166,3 +166,54 @@ def run(tier, seed, escalate=False):
     res = _run_before_argform(tier, seed, escalate)
     f, n = argform_independence("C15", ARGFORM_CASES, seed)
     return merge_oracle(res, f, n, "argument_form_variants")
+
+
+# ------------------------------------------------------------------ windows on integer-typed axes with LARGE coordinates
+def integer_axis_windows(seed):
+    """every window kind evaluated on an axis stored as int16 / uint16 / int32 / int64 whose coordinates are large enough that
+    squares and products overflow the narrow type, with line widths small enough that the window has not decayed: the same
+    numbers as on the float64 axis (a kind that refuses the dtype is not judged)"""
+    import warnings
+    from dnplab.math import window as W
+    fails, n_eval = [], 0
+    axes = [("int16", np.int16, np.arange(0, 320, 20)), ("uint16", np.uint16, np.arange(0, 640, 40)), ("int32", np.int32, np.arange(0, 66000, 5500)),
+            ("int64", np.int64, np.arange(0, 66000, 5500)), ("int16-negative-start", np.int16, np.arange(-200, 200, 25))]
+    for label, dt, ax in axes:
+        span = float(ax.max() - ax.min())
+        kinds = [("exponential", {"lw": 0.3 / span}), ("gaussian", {"lw": 0.6 / span}), ("traf", {"lw": 0.3 / span}),
+                 ("lorentz_gauss", {"lw": 0.2 / span, "gauss_lw": 0.5 / span}), ("hann", {}), ("hamming", {}), ("sin2", {})]
+        for kind, kw in kinds:
+            for via in ("window", "apodize"):
+                n_eval += 1
+                with warnings.catch_warnings():
+                    warnings.simplefilter("ignore")
+                    with np.errstate(all="ignore"):
+                        try:
+                            if via == "window":
+                                f = getattr(W, kind)
+                                arg = (lambda a: (a,) if kind not in ("hann", "hamming", "sin2") else (len(a),))
+                                want = np.asarray(f(*arg(ax.astype(float)), **kw), dtype=complex)
+                                got = np.asarray(f(*arg(ax.astype(dt)), **kw), dtype=complex)
+                            else:
+                                v = np.ones((len(ax), 2))
+                                want = np.asarray(dnp.apodize(dnp.DNPData(v.copy(), ["t2", "k"], [ax.astype(float), np.arange(2.0)]), "t2", kind=kind, **kw).values, dtype=complex)
+                                got = np.asarray(dnp.apodize(dnp.DNPData(v.copy(), ["t2", "k"], [ax.astype(dt), np.arange(2.0)]), "t2", kind=kind, **kw).values, dtype=complex)
+                        except Exception:  # noqa: BLE001
+                            continue
+                if got.shape != want.shape or not np.allclose(got, want, rtol=1e-9, atol=1e-12, equal_nan=True):
+                    key = "C15:window-depends-on-axis-dtype:%s:%s" % (kind, label)
+                    fails.append({"key": key, "clause": key, "ops": [{"kind": kind, "axis_dtype": label, "via": via, "axis": ax.tolist()[:6]}]})
+    seen, uniq = set(), []
+    for f_ in fails:
+        if f_["key"] not in seen:
+            seen.add(f_["key"]); uniq.append(f_)
+    return uniq, n_eval
+
+
+_run_before_intaxis = run
+
+
+def run(tier, seed, escalate=False):
+    res = _run_before_intaxis(tier, seed, escalate)
+    f, n = integer_axis_windows(seed)
+    return merge_oracle(res, f, n, "integer_axis_windows")
